@@ -153,6 +153,12 @@ func ruleArith(c *Ctx, prefix string) {
 											okc = true
 										}
 									}
+									// normal form: n < v is rendered !(v < n+1)
+									if f.Kind == "lt" && !f.Val && f.X == v {
+										if m, err := strconv.ParseInt(f.Y, 10, 64); err == nil && m-1 >= s.c-64 {
+											okc = true
+										}
+									}
 								}
 							}
 						}
@@ -198,6 +204,9 @@ func ruleArith(c *Ctx, prefix string) {
 								}
 								if f.Kind == "lt" && f.X == fmt.Sprint(s.c) && f.Y == v && !f.Val {
 									le = true // v <= c
+								}
+								if f.Kind == "lt" && f.X == v && f.Y == fmt.Sprint(s.c+1) && f.Val {
+									le = true // v < c+1 (normal form of v <= c)
 								}
 							}
 							if ge && le {
@@ -261,7 +270,7 @@ func ruleArith(c *Ctx, prefix string) {
 			if strings.HasSuffix(ex.Canon(st, ret.Results[1]).S, "allocators.ErrOverflow") {
 				nOverflowExits++
 				r0 := ex.Canon(st, ret.Results[0]).S
-				rv := ex.Resolve(st, ret.Results[0])
+				rv := ex.ResolveDeep(st, ret.Results[0])
 				zero := r0 == "0"
 				if sl, ok := rv.(*ssa.Slice); ok {
 					if n, ok := arrayLen(sl.X.Type()); ok && n == 0 {
